@@ -1096,6 +1096,10 @@ pub enum UnsubackReasonCode {
     NotAuthorized = 135,
 
     /// Returned when the topic filter was correctly formed but is not allowed for the client on the server.
+    TopicFilterInvalid = 143,
+
+    /// Not an UNSUBACK reason code of the MQTT5 specification (which uses 143, Topic Filter Invalid); kept
+    /// for compatibility with earlier versions of this crate.
     TopicNameInvalid = 144,
 
     /// Returned when the packet identifier was already in use on the server.
@@ -1119,6 +1123,7 @@ impl TryFrom<u8> for UnsubackReasonCode {
             128 => { Ok(UnsubackReasonCode::UnspecifiedError) }
             131 => { Ok(UnsubackReasonCode::ImplementationSpecificError) }
             135 => { Ok(UnsubackReasonCode::NotAuthorized) }
+            143 => { Ok(UnsubackReasonCode::TopicFilterInvalid) }
             144 => { Ok(UnsubackReasonCode::TopicNameInvalid) }
             145 => { Ok(UnsubackReasonCode::PacketIdentifierInUse) }
             _ => {
@@ -1139,6 +1144,7 @@ impl fmt::Display for UnsubackReasonCode {
                 UnsubackReasonCode::UnspecifiedError => { "128 - UnspecifiedError" }
                 UnsubackReasonCode::ImplementationSpecificError => { "131 - ImplementationSpecificError" }
                 UnsubackReasonCode::NotAuthorized => { "135 - NotAuthorized" }
+                UnsubackReasonCode::TopicFilterInvalid => { "143 - TopicFilterInvalid" }
                 UnsubackReasonCode::TopicNameInvalid => { "144 - TopicNameInvalid" }
                 UnsubackReasonCode::PacketIdentifierInUse => { "145 - PacketIdentifierInUse" }
             };
